@@ -2,7 +2,7 @@
    initialize / is_inactive on top of the real client-connection buffer) run by the real
    HttpProtocolHandler.run (threaded) and by the real Threadless._run_forever (local executor),
    compared with threaded_run and run_forever instantiated with the same scripts. *)
-From PM Require Import Lib.Bytes Lib.ZDict Exec.Threadless Exec.ThreadlessOld Exec.ThreadlessCases Exec.Modes Exec.ModesFacts Exec.FdTable Exec.FdTableCases.
+From PM Require Import Lib.Bytes Lib.ZDict Exec.Threadless Exec.ThreadlessOld Exec.ThreadlessCases Exec.Modes Exec.ModesFacts Exec.FdTable Exec.FdTableCases Exec.Dispatch.
 From Coq Require Import ZArith.
 
 Inductive hcall := HInit | HGet | HHandle (r w : list fd) | HShutdown.
@@ -180,7 +180,35 @@ Definition check_mcase (c : mcase) : bool :=
                 end) expected
   end.
 
-(* C17 compares driver runs and the descriptor hand-off (shared with C10) *)
-Inductive c17case := C17M (c : mcase) | C17F (c : fcase).
+(* the dispatch protocol: the real Acceptor._work + delegate_work_to_pool writing to in-memory pipes and the real
+   RemoteFdExecutor.receive_from_work_queue reading them; status 0 = nothing raised; served = per worker the
+   (descriptor, address) pairs handed to work() *)
+Inductive dcase := CDispatch (unix : bool) (idd nw : N) (conns : list (option N * fd)) (status : N) (served : list (list (fd * option N))).
+
+Definition served_eqb (a b : list (fd * option N)) : bool :=
+  list_eqb (fun x y : fd * option N => (fst x =? fst y)%Z && option_eqb N.eqb (snd x) (snd y)) a b.
+
+Definition check_dcase (c : dcase) : bool :=
+  match c with
+  | CDispatch unix idd nw conns status served =>
+      match dispatch_all unix idd nw 0 conns (repeat [] (N.to_nat nw)) with
+      | Err x => (1000 + exn_code x =? status)
+      | Ok pipes =>
+          (fix go (ps : list (list msg)) (sv : list (list (fd * option N))) : bool :=
+             match ps, sv with
+             | [], [] => status =? 0
+             | p :: ps', v :: sv' =>
+                 match receive_all unix (2 * length p + 1) p with
+                 | Ok l => served_eqb l v && go ps' sv'
+                 | Err x => (1000 + exn_code x =? status)
+                 end
+             | _, _ => false
+             end) pipes served
+      end
+  end.
+
+(* C17 compares driver runs, the descriptor hand-off (shared with C10), executor schedules (remote endings) and the
+   dispatch protocol *)
+Inductive c17case := C17M (c : mcase) | C17F (c : fcase) | C17X (c : xcase) | C17D (c : dcase).
 Definition check_c17 (c : c17case) : bool :=
-  match c with C17M m => check_mcase m | C17F f => check_fcase f end.
+  match c with C17M m => check_mcase m | C17F f => check_fcase f | C17X x => check_case x | C17D d => check_dcase d end.
